@@ -82,19 +82,34 @@ func Verif_C08_header_faults() {
 	verifAssert("at-most-one-write-besides-open-reply", len(conn.writes) <= 1)
 }
 
-// framing is by the length field alone: a well-formed message before a faulty header is processed
+// framing is by the length field alone: a well-formed message before a faulty one is processed
 func Verif_C08_wellformed_prefix_processed() {
 	verifEngineOnly()
-	verifNote("Established: UPDATE (body length symbolic 0..64) followed by a header with a corrupted marker: the UPDATE is delivered, then (1,1) is sent")
+	verifNote("Established: UPDATE (body length symbolic 0..64) followed by a faulty message: a header with a corrupted marker, a header with a bad length, or an unknown-type message with a body of 0..16 symbolic bytes; the UPDATE is delivered byte-exact (compared after the faulty message has been read, so a receive buffer shared between messages would show), then the matching NOTIFICATION is sent")
 	cfg := concreteConfig()
 	body := verifBuf("update", 0, 64)
-	bad := verifBuf("badhdr", 19, 19)
-	k := verifInt("corrupt")
-	verifAssume(verifAnd(k >= 0, k < 16))
-	verifAssume(verifAt(bad, k) != 0xFF)
+	kind := verifChoose("fault", 3)
 	conn := newSymConn("c", nil, 1)
 	conn.addFrame(updateMessageType, body)
-	conn.addBytes(bad)
+	var typ byte
+	switch kind {
+	case 0:
+		bad := verifBuf("badhdr", 19, 19)
+		k := verifInt("corrupt")
+		verifAssume(verifAnd(k >= 0, k < 16))
+		verifAssume(verifAt(bad, k) != 0xFF)
+		conn.addBytes(bad)
+	case 1:
+		l := verifU16("badlen")
+		verifAssume(verifOr(l < 19, l > 4096))
+		h := mkFrame(verifU8("type"), nil)
+		h[16], h[17] = byte(l>>8), byte(l)
+		conn.addBytes(h)
+	default:
+		typ = verifU8("badtype")
+		verifAssume(verifOr(typ < 1, typ > 4))
+		conn.addFrame(typ, verifBuf("badbody", 0, 16))
+	}
 	conn.shortReads = 1
 	pl := newMonPlugin()
 	p := mkPeer(cfg, pl)
@@ -105,7 +120,18 @@ func Verif_C08_wellformed_prefix_processed() {
 	if len(pl.updates) == 1 {
 		verifAssertBytesEq("update-before-fault-bytes", pl.updates[0], body)
 	}
-	verifAssert("then-not-synchronized", len(conn.writes) == 1 && isNotification(conn.writes[0], NOTIF_CODE_MESSAGE_HEADER_ERR, NOTIF_SUBCODE_CONN_NOT_SYNCHRONIZED, 0))
+	verifAssert("one-notification", len(conn.writes) == 1)
+	if len(conn.writes) == 1 {
+		w := conn.writes[0]
+		switch kind {
+		case 0:
+			verifAssert("then-not-synchronized", isNotification(w, NOTIF_CODE_MESSAGE_HEADER_ERR, NOTIF_SUBCODE_CONN_NOT_SYNCHRONIZED, 0))
+		case 1:
+			verifAssert("then-bad-length", isNotification(w, NOTIF_CODE_MESSAGE_HEADER_ERR, NOTIF_SUBCODE_BAD_MESSAGE_LEN, 0))
+		default:
+			verifAssert("then-bad-type", isNotification(w, NOTIF_CODE_MESSAGE_HEADER_ERR, NOTIF_SUBCODE_BAD_MESSAGE_TYPE, 1) && verifAt(w, 21) == typ)
+		}
+	}
 	verifAssert("closed-and-idle", conn.closed && to == idleState)
 	verifAssert("onclose-once", pl.nClose == 1)
 	verifCover("prefix-processed")
